@@ -149,6 +149,13 @@ def evalBlock (c : Cfg) (out v : Val) : Res :=
   else .ok { out := v, changed := true, enq := false,
              sends := sendAll .output c.name c.onOutput out v v }
 
+/-- the end of an accepted top-level FSM transition (`FSM._ctx_event`):
+    `output = self.calc_output(); if output is not UNDEF: self.set_output(output)` —
+    `none`: the state leaves the output alone; otherwise exactly one `set_output`, whether the
+    value compares equal to the current output or not -/
+def fsmTransition (c : Cfg) (out cv : Val) : Option Res :=
+  if cv.isUndef then none else some (setOutput c out cv)
+
 inductive BKind where
   | sblock | cblock
   deriving DecidableEq, Repr, Inhabited
